@@ -1,6 +1,7 @@
 /- Line-protocol front end for the flow model (C09 correspondence). Core only.
 
   c09 run  <ev>|<ev>|…     → `ok stale=<n> drained=<n> ids=<n> <ev>|<ev>|…`  or  `err:<kind>`
+  c09 prep <ev>            → `ok <ev>[|<ev>;cat;sync;peers;typ]` or `err:<kind>` (flow_prepare_event_data on one event)
   c09 name <enc name>      → `strip=<enc>;sync=<n|s:enc>;sd=<0|1>;rp=<n|int>;bt=<0|1>`
   c09 int  <enc str>       → `n` | `<int>`
   c09 final <ev>|…         → `final=<0|1>` for the queue made of the helper copies of the events
@@ -137,6 +138,16 @@ def handle (args : List String) : String :=
       match helperQueue input with
       | .error e => e.show
       | .ok q => "final=" ++ (if detectFinal q then "1" else "0")
+  | ["prep", ev] =>
+    match parseEv ev with
+    | none => "bad-op"
+    | some e =>
+      match prepare e with
+      | .error er => er.show
+      | .ok out => "ok " ++ joinWith "|" (out.map fun x => showEv x ++ (match x.hlp with
+          | none => ""
+          | some h => ";" ++ enc h.cat ++ ";" ++ enc h.sync ++ ";" ++
+              (if h.peers.isEmpty then "-" else joinWith "," (h.peers.map toString)) ++ ";" ++ toString h.typ))
   | ["name", n] =>
     let name := dec n
     "strip=" ++ enc (stripBytes name) ++ ";sync=" ++ showOptS (syncTag name) ++ ";sd=" ++
